@@ -15,7 +15,6 @@ import sys
 import time
 from fractions import Fraction
 
-import diffrax
 import equinox as eqx
 import jax
 import jax.numpy as jnp
@@ -24,7 +23,7 @@ import z3
 from jax import random as jr
 
 from jaxsmt import concrete, solve, stubs
-from jaxsmt.core import ROOT, Check, conj, disj, eq_arr, implies, neg
+from jaxsmt.core import ROOT, Check, conj, eq_arr, implies, neg
 from jaxsmt.interp import Interp
 from jaxsmt.ops import F32, INF, isconc
 from jaxsmt.remq import FPRemInterp, RemInterp
@@ -87,7 +86,6 @@ class Cfg:
         cls = sp["cls"]
         dflt = lerax_defaults(cls)
         self.lnames = list(sp["limits"])
-        fixed = {k: v for k, v in dflt.items() if k not in self.lnames}
         self.trc = trace(lambda *v: cls(**dict(zip(self.lnames, v)), **static), *[jnp.asarray(dflt[l], jnp.float32) for l in self.lnames], argnames=self.lnames,
                          label=f"{cls.__name__}.__init__")
         self.env = cls(**static)
@@ -124,6 +122,39 @@ class Cfg:
         if self.mode == "fp32":
             return [fin(t) for t in terms if not isconc(t)]
         return [z3.And(t >= -FLT_MAX, t <= FLT_MAX) for t in terms if not isconc(t)]
+
+
+def fp_nice(terms):
+    """replay-friendly FP32 values (zero or normal with moderate magnitude): XLA on CPU flushes subnormals, z3 does not — used in margin
+    queries only (to pick a counterexample that survives the real arithmetic), never to prove"""
+    out = []
+    for t in terms:
+        if isconc(t) or not z3.is_fp(t):
+            continue
+        a = z3.fpAbs(t)
+        out.append(z3.Or(z3.fpIsZero(t), z3.And(z3.fpIsNormal(t), z3.fpGEQ(a, z3.FPVal(2.0 ** -20, F32)), z3.fpLEQ(a, z3.FPVal(2.0 ** 20, F32)))))
+    return out
+
+
+def real_nice(terms, bound=64):
+    """moderate magnitudes for REAL-mode counterexamples (so that they survive float32); margin queries only"""
+    return [z3.And(t >= -bound, t <= bound) for t in terms if not isconc(t) and z3.is_real(t)]
+
+
+def sym_inputs(S, C=None):
+    ts = [t for v in S.values() for t in np.asarray(v, dtype=object).reshape(-1) if not isconc(t)]
+    if C:
+        ts += [t for v in C.values() for t in np.asarray(v, dtype=object).reshape(-1) if not isconc(t)]
+    return ts
+
+
+def prove_auto(ck, oid, pre, goal, nice=(), **kw):
+    """products of symbols: try the default solver first (complete answers are kept), otherwise Ackermann + nlsat"""
+    fs = [f for f in list(pre) + [neg(goal)] if not (isconc(f) and f)]
+    quick = solve.decide(fs + solve.instantiate_axioms(fs), timeout_s=10)
+    if nice:
+        kw["margin_goal"] = implies(conj(list(nice)), goal)
+    return ck.prove(oid, pre, goal, nonlinear=quick.status not in ("sat", "unsat"), **kw)
 
 
 def member_terms(o, x, lo, hi):
@@ -192,7 +223,8 @@ def sec_inductive(ck, name):
                 extra = None
             pre = cx.pre + cx.finite(list(S["y"])) + list(it.assumptions) + (inf_axioms() if mode == "real" else [])
             oid = f"cc.{name}.obs_in_space.inductive@{cx.tag},mode={mode.upper()},components={sel}"
-            ck.prove(oid, pre, goal, replay=replay_member(tr, S, it, need_member=(mode == "real")), extra_axioms=extra, nonlinear=False)
+            nice = fp_nice(sym_inputs(S, cx.C)) if mode == "fp32" else real_nice(sym_inputs(S, cx.C))
+            ck.prove(oid, pre, goal, replay=replay_member(tr, S, it, need_member=(mode == "real")), extra_axioms=extra, nonlinear=False, margin_goal=implies(conj(nice), goal))
             if cfg == "default" and mode == "fp32" and sel:
                 # negative control: the space shrunk by one ulp-ish margin is NOT an invariant
                 i = sel[-1]
@@ -222,9 +254,20 @@ def sec_initial(ck, name):
         out = tr.run(it, S)
         comps = member_terms(it.o, out["obs"], out["low"], out["high"])
         pre = cx.pre + stubs.contracts(it) + list(it.assumptions) + inf_axioms()
-        ck.prove(f"cc.{name}.initial_in_space@{cx.tag},mode=REAL", pre, conj(comps + [out["member"][()]]), replay=replay_member(tr, S, it), nonlinear=(cfg == "symbolic" and name == "pendulum"))
+        prove_auto(ck, f"cc.{name}.initial_in_space@{cx.tag},mode=REAL", pre, conj(comps + [out["member"][()]]), replay=replay_member(tr, S, it), nice=real_nice(sym_inputs(S, cx.C)))
         if cfg == "default":
             ck.witness(f"witness.cc.{name}.initial_contract_satisfiable", pre)
+    if ck.thorough and name in ("cartpole", "mountain_car", "continuous_mountain_car"):
+        # thorough tier: the float32 post-processing of the uniform draw itself (no angle components in these three)
+        cx = Cfg(name, "default", "fp32")
+        it = cx.it
+        S = tr.symbols(it, given=cx.given())
+        out = tr.run(it, S)
+        us = [t for (nm, oi, idx, ops, t) in it.uf_apps if nm == "RAND_u01"]
+        pre = stubs.contracts(it) + [z3.fpLEQ(u, z3.FPVal(U_MAX, F32)) for u in us]
+        for i, goal in enumerate(member_terms(it.o, out["obs"], out["low"], out["high"])):
+            ck.prove(f"cc.{name}.initial_in_space@config=default,mode=FP32,component={i}", pre, goal, replay=replay_member(tr, S, it, need_member=False), timeout=300,
+                     margin_goal=implies(conj(fp_nice(sym_inputs(S))), goal))
 
 
 def sec_cartpole_step(ck):
@@ -241,6 +284,7 @@ def sec_cartpole_step(ck):
         tr = trace(f, cx.env, jnp.zeros(4), jnp.array(0.0), jnp.array(0), jr.key(0), argnames=["env", "y", "t", "a", "key"], label="CartPole.step (diffeqsolve -> FLOW, PRNG contracts)")
         if cfg == "default":
             ck.encoded(tr)
+            concrete.validate(ck, tr, n=2, seed=ck.seed, gen=lambda nm, av, rng: jnp.asarray(rng.integers(0, 2), dtype=av.dtype) if nm == "a" else None)
         S = tr.symbols(it, given=cx.given())
         out = tr.run(it, S)
         flow = [t for (nm, oi, idx, ops, t) in it.uf_apps if nm == "FLOW"]
@@ -248,7 +292,8 @@ def sec_cartpole_step(ck):
         comps = member_terms(it.o, out["obs"], out["low"], out["high"])
         goal = conj(comps + [out["member"][()], eq_arr(out["obs"], out["state_y"])])
         ck.fact(f"cc.cartpole.step_uses_flow@{cx.tag}", len(flow) == 4, f"{len(flow)} FLOW outputs feed the successor state")
-        ck.prove(f"cc.cartpole.obs_in_space.step_inductive@{cx.tag},mode=REAL", pre, goal, replay=replay_step(tr, S, it))
+        ck.prove(f"cc.cartpole.obs_in_space.step_inductive@{cx.tag},mode=REAL", pre, goal, replay=replay_step(tr, S, it),
+                 margin_goal=implies(conj(real_nice(sym_inputs(S, cx.C) + flow)), goal))
         if cfg == "default":
             ck.witness("witness.cc.cartpole.nonterminal_successor_reachable", pre + [neg(out["terminal"][()])])
             ck.witness("witness.cc.cartpole.terminal_successor_reachable", pre + [out["terminal"][()]])
@@ -272,7 +317,9 @@ def sec_cartpole_step(ck):
         out = tr.run(it, S)
         comps = member_terms(it.o, out["obs"], out["low"], out["high"])
         pre = cx.pre + [z3.Not(z3.fpIsNaN(t)) for t in S["y"]] + [neg(out["terminal"][()])]
-        ck.prove(f"cc.cartpole.obs_in_space.nonterminal@{cx.tag},mode=FP32", pre, conj(comps + [out["member"][()]]), replay=replay_member(tr, S, it))
+        goal = conj(comps + [out["member"][()]])
+        ck.prove(f"cc.cartpole.obs_in_space.nonterminal@{cx.tag},mode=FP32", pre, goal, replay=replay_member(tr, S, it),
+                 margin_goal=implies(conj(pre + fp_nice(sym_inputs(S, cx.C))), goal))
         if cfg == "default":
             ck.witness("witness.cc.cartpole.nonterminal_state_exists_fp32", pre)
             ck.control("control.cc.cartpole.terminal_states_not_all_members", [z3.Not(z3.fpIsNaN(t)) for t in S["y"]], conj(comps))
@@ -400,7 +447,8 @@ def action_sample(ck, label, space, modes, given=None, pre0=None, tag="config=de
             pre += inf_axioms()
         goal = conj([comps[i] for i in sel] + ([out["member"][()]] if mode == "real" else []))
         oid = f"cc.{label}.action_sample_member@{tag},mode={mode.upper()}" + (f",components={sel}" if mode == "fp32" else "")
-        ck.prove(oid, pre, goal, replay=replay_member(tr, S, it, need_member=(mode == "real")), timeout=240)
+        ck.prove(oid, pre, goal, replay=replay_member(tr, S, it, need_member=(mode == "real")), timeout=240,
+                 margin_goal=implies(conj(pre + fp_nice(sym_inputs(S))), goal) if mode == "fp32" else None)
         if mode == "real" and tag == "config=default" and label in ("continuous_mountain_car", "pendulum", "ant"):
             hi = np.asarray(out["high"], dtype=object).reshape(-1)[0]
             ck.control(f"control.cc.{label}.action_sample_below_midpoint", pre, it.o.le(np.asarray(out["obs"], dtype=object).reshape(-1)[0], it.o.mul(hi, Fraction(1, 2))))
@@ -417,15 +465,13 @@ def sec_actions_classic(ck, name):
         cx = Cfg(name, "symbolic", "real")
         given = lambda it: {"space_low": cx.E["action_space_low"], "space_high": cx.E["action_space_high"]}
 
-        class _It:  # share the configuration's interpreter so that the limits are the same symbols
-            pass
         tr = trace(_box_sample_fn, space, jr.key(0), argnames=["space", "key"], label=f"{name}: Box.sample -> contains")
         it = cx.it
         S = tr.symbols(it, given=given(it))
         out = tr.run(it, S)
         comps = member_terms(it.o, out["obs"], out["low"], out["high"])
         pre = cx.pre + stubs.contracts(it) + inf_axioms()
-        ck.prove(f"cc.{name}.action_sample_member@config=symbolic,mode=REAL", pre, conj(comps + [out["member"][()]]), replay=replay_member(tr, S, it), nonlinear=True)
+        prove_auto(ck, f"cc.{name}.action_sample_member@config=symbolic,mode=REAL", pre, conj(comps + [out["member"][()]]), replay=replay_member(tr, S, it), nice=real_nice(sym_inputs(S, cx.C)))
     # accepted: step() takes the sampled action's abstract value
     st = jax.eval_shape(lambda k: cx0.env.initial(key=k), jr.key(0))
     act = jax.eval_shape(lambda k: space.sample(key=k), jr.key(0))
@@ -463,7 +509,9 @@ def wrapper_image(ck, label, w, inner_space, mode, any_input=False):
     sp = w.observation_space
     av = tr.out_avals[tr.out_names.index("obs")]
     ck.fact(f"wrap.{label}.obs_aval", tuple(av.shape) == tuple(sp.shape) and av.dtype == sp.low.dtype, f"func output {av}, advertised shape {sp.shape} dtype {sp.low.dtype}")
-    ck.prove(f"wrap.{label}.obs_in_advertised_space,mode={mode.upper()}", pre, conj(comps + [out["member"][()]]), replay=replay_member(tr, S, it))
+    goal = conj(comps + [out["member"][()]])
+    ck.prove(f"wrap.{label}.obs_in_advertised_space,mode={mode.upper()}", pre, goal, replay=replay_member(tr, S, it),
+             margin_goal=implies(conj(pre + fp_nice(sym_inputs(S))), goal) if mode == "fp32" else None)
     return tr, it, S, out, pre
 
 
